@@ -374,6 +374,19 @@ pub fn core_specs() -> Vec<Spec> {
             }
         }
     }
+    // trees with zero-width MISSING nodes and ERROR nodes: every node of a few small sources through the positional functions
+    for esrc in ["s = f'{!r:>3}'\n", "t = f'{!r}' + f'{:>3}'\n", "def f(:\n    pass\n", "x = (1,\n", "if x:\n  ("] {
+        let t3 = parse_python(esrc);
+        let i3 = TreeInfo::new(&t3, esrc);
+        for n in 0..i3.nodes.len() {
+            for f in ["named-child-index", "named-child-count", "source-text"] {
+                specs.push(Spec { func: f.to_string(), nodes: 0, src: esrc.to_string(), args: vec![GV::Syn(n)], mode: "core".to_string() });
+            }
+            if n % 3 == 0 { for f in ["node-type", "start-row", "start-column", "end-row", "end-column"] {
+                specs.push(Spec { func: f.to_string(), nodes: 0, src: esrc.to_string(), args: vec![GV::Syn(n)], mode: "core".to_string() });
+            } }
+        }
+    }
     specs
 }
 
